@@ -1,3 +1,6 @@
 import KalignModel.Props.C08Opt
 import KalignModel.Props.C07Soft
+import KalignModel.Props.C07SoftGroups
+import KalignModel.Props.C08Direct
+import KalignModel.Props.C08DirectSoft
 /-! aggregator for tools/props/c08.py: C08, C08Opt and the binary32 diagonal theorems C08Soft_* (stated in Props/C07Soft.lean) -/
